@@ -49,7 +49,7 @@ if __name__ == "__main__":
     props = extra[0].split(",") if extra else None
     names = args or sorted(os.listdir(f"{ROOT}/seeded"))
     names = [n for n in names if os.path.isdir(f"{ROOT}/seeded/{n}")]
-    with ThreadPoolExecutor(3) as ex:
+    with ThreadPoolExecutor(int(os.environ.get("SEEDCHECK_PAR", "3"))) as ex:
         for r in ex.map(lambda n: one(n, tier, props), names):
             name, prop, rows, err, _ = r
             if isinstance(rows, str):
